@@ -53,6 +53,12 @@ class World:
 
     def start(self):
         self.deep.start()
+        # the first poll's configuration is applied by a task on the pool: wait for it, so that it cannot land later (a
+        # stalled worker) on top of triggers a scenario installs directly
+        k = _k.active()
+        if k is not None:
+            from . import common
+            common.wait_until(k, lambda: not self.deep.task_handler._pending, 60)
         return self
 
     def install_triggers(self, triggers):
